@@ -39,7 +39,7 @@ pub struct C7Cfg {
     pub page_rows: u8,
     /// 0 Page, 1 Chunk, 2 None
     pub stats: u8,
-    /// 0 off, 1 on (default ndv/fpp), 2 ndv=1 fpp=0.5, 3 ndv=8 fpp=0.01
+    /// 0 off, 1 on (max_ndv=1000), 2 ndv=1 fpp=0.5, 3 ndv=8 fpp=0.01, 4 on (default ndv=1M, ~1 MiB filter; only at <= 1 deviation)
     pub bloom: u8,
     pub v2: bool,
     pub dict: bool,
@@ -70,7 +70,8 @@ impl C7Cfg {
         }
         b = b.set_statistics_enabled([EnabledStatistics::Page, EnabledStatistics::Chunk, EnabledStatistics::None][self.stats as usize]);
         match self.bloom {
-            1 => b = b.set_bloom_filter_enabled(true),
+            1 => b = b.set_bloom_filter_enabled(true).set_bloom_filter_max_ndv(1000),
+            4 => b = b.set_bloom_filter_enabled(true),
             2 => b = b.set_bloom_filter_enabled(true).set_bloom_filter_max_ndv(1).set_bloom_filter_fpp(0.5),
             3 => b = b.set_bloom_filter_enabled(true).set_bloom_filter_max_ndv(8).set_bloom_filter_fpp(0.01),
             _ => {}
@@ -124,6 +125,7 @@ fn dev1_cfgs() -> Vec<C7Cfg> {
         C7Cfg { bloom: 1, ..d },
         C7Cfg { bloom: 2, ..d },
         C7Cfg { bloom: 3, ..d },
+        C7Cfg { bloom: 4, ..d },
         C7Cfg { v2: true, ..d },
         C7Cfg { dict: false, ..d },
         C7Cfg { hdr: true, ..d },
@@ -492,8 +494,19 @@ fn run_case(c: &Case) -> Result<(FileObs, ConvObs), Fail> {
                 let bytes = Bytes::from(write_arrow(ty, vals, &c.cfg)?);
                 let op = open(&bytes)?;
                 let ncols = op.md.file_metadata().schema_descr().num_columns();
+                // byte-like flat columns: the physical values are the bytes themselves, so the decoded
+                // chunk can also be compared with what was written
+                let expect: Option<Vec<Option<Raw>>> = if ncols == 1 && crate::types::is_leaf(&ty.dt) && vals.iter().all(|v| matches!(v, Val::Null | Val::Str(_) | Val::Bytes(_))) {
+                    Some(vals.iter().map(|v| match v {
+                        Val::Str(s) => Some(Raw::Bytes(s.as_bytes().to_vec())),
+                        Val::Bytes(b) => Some(Raw::Bytes(b.clone())),
+                        _ => None,
+                    }).collect())
+                } else {
+                    None
+                };
                 for col in 0..ncols {
-                    check_column(&bytes, &op, col, &label, None, &mut obs)?;
+                    check_column(&bytes, &op, col, &label, expect.as_deref(), &mut obs)?;
                 }
                 if ncols == 1 && crate::types::is_leaf(&ty.dt) {
                     check_converter(&bytes, &op, &label, &mut cobs)?;
@@ -640,7 +653,8 @@ pub fn run(ctx: &Ctx) -> ! {
 
     // ---------------- typed
     if want("typed") {
-        let sp = specs();
+        let tf: Option<String> = ctx.extra_args.iter().find_map(|a| a.strip_prefix("--type=").map(|s| s.to_string()));
+        let sp: Vec<Spec> = specs().into_iter().filter(|s| tf.as_deref().map(|f| s.label.contains(f)).unwrap_or(true)).collect();
         let prod = product_cfgs();
         let dev1 = dev1_cfgs();
         let (n_prod, n_dev1) = if quick { (3usize, 4usize) } else { (4, 5) };
